@@ -25,6 +25,9 @@ import TensoraVerif.Lemmas.SpaddModel
 import TensoraVerif.Lemmas.DenseNModel
 import TensoraVerif.Lemmas.Sparse2Generate
 import TensoraVerif.Lemmas.DenseTermModel
+import TensoraVerif.Lemmas.CsrKernelDef
+import TensoraVerif.Lemmas.SpdotModel
+import TensoraVerif.Lemmas.ConvModel
 open TV
 
 namespace Drv
@@ -430,6 +433,26 @@ def handle (cmd : String) (args : List Sexp) : Sexp :=
             (match ToIr.leaves e with | [bT] => Sparse2.isExpr i j bT e && fnames == [o.name, bT.name] | _ => false)
           | _, _ => false
         if isS2 then .atom "sparse2" else
+        -- csr: CSR copy / scale (ds -> ds)
+        let isCsr := match g, a.tidx with
+          | .iter i (some ⟨o, 0⟩) (.iter j (some ⟨o', 1⟩) (.terminal e)), [i', j'] =>
+            i == i' && j == j' && i != j && decide (o = o') && plain && Csr.isDS i j o && Csr.dsFormats fs &&
+            (match ToIr.leaves e with | [bT] => Csr.isExpr i j bT e && fnames == [o.name, bT.name] | _ => false)
+          | _, _ => false
+        if isCsr then .atom "csr" else
+        -- spdot: sparse dot product into a scalar; d2s: dense vector stored compressed
+        let fmodes : List (List Graph.Mode) := List.map (fun (f : String × List Graph.Mode × List Nat) => f.2.1) fs
+        let isDot := match g, tensorIdOf d fs with
+          | .iter i none (.terminal (.mul (.tensor bT) (.tensor cT))), some o =>
+            plain && Spdot.isClass i o bT cT && bT.name != cT.name && fnames == [o.name, bT.name, cT.name] &&
+            fmodes == [[], [Graph.Mode.compressed], [Graph.Mode.compressed]]
+          | _, _ => false
+        if isDot then .atom "spdot" else
+        let isD2S := match g with
+          | .iter i (some ⟨o, 0⟩) (.terminal (.tensor bT)) =>
+            plain && Sparse1.isSp i o && Dense1.isLeaf i bT && fnames == [o.name, bT.name] && fmodes == [[Graph.Mode.compressed], [Graph.Mode.dense]]
+          | _ => false
+        if isD2S then .atom "d2s" else
         -- denseTerm: any all-dense linear nest with contraction loops (matrix product, dot product, ...)
         let isDT := plain && Dense2.denseFormats fs && (match tensorIdOf d fs with
           | some o => (match nestLevels o 0 g with
